@@ -248,7 +248,7 @@ func Run(items []string, opt Options) Summary {
 		opt.Workers = runtime.NumCPU()
 	}
 	if opt.ReplayRuns <= 0 {
-		opt.ReplayRuns = 3
+		opt.ReplayRuns = 5
 	}
 	workdir, err := os.MkdirTemp(filepath.Dir(os.Args[0]), "mc")
 	if err != nil {
